@@ -183,6 +183,29 @@ func hCall(ctx erpc.CallCtx, arg *[]byte) ([]byte, *erpc.Status) {
 	return []byte("ok"), nil
 }
 
+// parkState lets a script hold a call handler: the handler announces itself and waits for the release.
+type parkState struct {
+	arrived chan struct{}
+	release chan struct{}
+	once    sync.Once
+}
+
+func (ps *parkState) free() { ps.once.Do(func() { close(ps.release) }) }
+
+var parkCtl atomic.Value // *parkState (nil pointer: handlers do not park)
+
+func hPark(ctx erpc.CallCtx, arg *[]byte) ([]byte, *erpc.Status) {
+	noteHandler(ctx.Session())
+	if ps, _ := parkCtl.Load().(*parkState); ps != nil {
+		select {
+		case ps.arrived <- struct{}{}:
+		default:
+		}
+		<-ps.release
+	}
+	return []byte("parked-ok"), nil
+}
+
 func hPush(ctx erpc.PushCtx, arg *[]byte) *erpc.Status {
 	noteHandler(ctx.Session())
 	return nil
@@ -235,6 +258,7 @@ type world struct {
 	closed    [2]bool
 	callRoute string
 	pushRoute string
+	parkRoute string
 	addr      string
 	mu        sync.Mutex
 	all       []*sinfo
@@ -348,6 +372,7 @@ func newWorld(path string) *world {
 		p := erpc.NewPeer(cfg, rec)
 		w.callRoute = p.RouteCallFunc(hCall)
 		w.pushRoute = p.RoutePushFunc(hPush)
+		w.parkRoute = p.RouteCallFunc(hPark)
 		w.peers[side] = p
 		if w.tcp && side == sideS {
 			go p.ListenAndServe()
@@ -598,6 +623,10 @@ func (w *world) cut(l *link, reset bool) {
 }
 
 func (w *world) teardown() {
+	if ps, _ := parkCtl.Load().(*parkState); ps != nil {
+		ps.free()
+		parkCtl.Store((*parkState)(nil))
+	}
 	for _, si := range w.sessions() {
 		si := si
 		go si.sess.Close()
@@ -1710,12 +1739,19 @@ func scriptList(path string, full bool) []scriptDesc {
 	for i := range out {
 		out[i].Side = "S"
 	}
+	// Close() of a session that has an outgoing call pending, then the connection is lost (or, as control, the
+	// reply arrives); both ends as the closing session, in every tier
+	for _, side := range []string{"S", "C"} {
+		for _, f := range []string{"cut-eof", "cut-reset", "remote-close", "reply"} {
+			out = append(out, scriptDesc{Script: "close-with-pending-call.then-" + f, Kind: "close-pending", Flavour: f, Side: side})
+		}
+	}
 	if path == "listener" {
 		// the far ends of ServeConn'ed client connections all default to the listener's address as id and take each
 		// other over (a history op of its own); scripts with more than one connection dial, so that ids are unique
 		for i := range out {
 			out[i].Via = []string{"dial", "serveconn"}[i%2]
-			if out[i].Kind == "setid-mid" || out[i].Kind == "hub-mid" {
+			if out[i].Kind == "setid-mid" || out[i].Kind == "hub-mid" || (out[i].Kind == "close-pending" && out[i].Side == "C") {
 				out[i].Via = "dial"
 			}
 		}
@@ -1724,7 +1760,7 @@ func scriptList(path string, full bool) []scriptDesc {
 		n := len(out)
 		for i := 0; i < n; i++ {
 			switch out[i].Kind {
-			case "accept-insert", "hook-accept", "hook-far":
+			case "accept-insert", "hook-accept", "hook-far", "close-pending":
 				continue
 			}
 			c := out[i]
@@ -1868,6 +1904,108 @@ func runScript(w *world, sd scriptDesc) (vs []viol, inconcl string) {
 		}
 		w.mark(t, "its Close() returned and its connection ended ("+sd.Flavour+")")
 		w.mark(o, "its connection ended ("+sd.Flavour+")")
+	case "close-pending":
+		// X has issued a call whose handler is parked at the far end; X.Close() is waiting for that call; then the
+		// connection is lost (nothing else is released) - or, as control, the reply arrives.
+		l := newLink()
+		if l == nil {
+			return
+		}
+		x, o := pick(l)
+		ps := &parkState{arrived: make(chan struct{}, 4), release: make(chan struct{})}
+		parkCtl.Store(ps)
+		var cst *erpc.Status
+		cch := run(func() {
+			var res []byte
+			cst = x.sess.Call(w.parkRoute, []byte("pending"), &res).Status()
+		})
+		select {
+		case <-ps.arrived:
+		case <-time.After(trapWait):
+			return nil, infeasible("the far handler was not reached")
+		}
+		cl := w.goClose(x)
+		if !w.quiesce() {
+			return nil, "watchdog"
+		}
+		select {
+		case <-cl:
+			return nil, infeasible("Close() returned although a call issued by the session was still unanswered")
+		default:
+		}
+		if st := erpc.VerifStatus(x.sess); st != 2 {
+			return nil, infeasible("Close() is not waiting in activeClosing (status " + stName(st) + ")")
+		}
+		switch sd.Flavour {
+		case "reply":
+			ps.free()
+		case "cut-eof": // in-memory: both directions severed, EOF; TCP: the closing session's own descriptor is closed under it
+			if c, ok := x.raw.(*memconn.Conn); ok {
+				c.Sever(false)
+			} else if x.raw != nil {
+				x.raw.Close()
+			}
+		case "cut-reset":
+			if c, ok := o.raw.(*memconn.Conn); ok {
+				c.Sever(true)
+			} else if c, ok := o.raw.(*net.TCPConn); ok {
+				c.SetLinger(0)
+				c.Close()
+			}
+		case "remote-close": // the far end's transport goes away (its session cannot Close(): its handler is parked)
+			if o.raw != nil {
+				o.raw.Close()
+			}
+		}
+		q := quiesce.Wait(w.qopt())
+		core.Add("quiescent_points", 1)
+		if !q.Quiescent {
+			return nil, "watchdog"
+		}
+		var set vset
+		closed := false
+		select {
+		case <-cl:
+			closed = true
+		default:
+			blocked := quiesce.Brief(quiesce.Blocked(q.Dump, "github.com/henrylee2cn/erpc/v6.(*session).closeLocked"))
+			if len(blocked) > 2 {
+				blocked = blocked[:2]
+			}
+			set.add("close-not-returned", fmt.Sprintf("%s: Close() was waiting for an unanswered outgoing call when the connection was lost (%s); at quiescence Close() has not returned, status %s, PostDisconnect ran %d times; blocked: %v",
+				x.name(), sd.Flavour, stName(erpc.VerifStatus(x.sess)), atomic.LoadInt32(&x.disc), blocked))
+		}
+		callDone := false
+		select {
+		case <-cch:
+			callDone = true
+		default:
+		}
+		w.mark(x, "its Close() was called and its connection ended ("+sd.Flavour+")")
+		w.settle()
+		first, _ := w.check(false)
+		for _, v := range first {
+			set.add(v.sym, v.what)
+		}
+		if st := erpc.VerifStatus(x.sess); st != 3 && st != 5 {
+			set.add("not-in-closed-state", fmt.Sprintf("%s: status is %s at the quiescent point after Close() and the loss of the connection", x.name(), stName(st)))
+		}
+		if closed && callDone {
+			core.Add("pending_calls_completed_by_close_or_loss", 1)
+			if sd.Flavour == "reply" && cst.OK() {
+				core.Add("pending_calls_answered_during_close", 1)
+			}
+		}
+		if len(set.vs) > 0 {
+			return set.vs, ""
+		}
+		if !callDone {
+			return nil, "the pending call is incomplete at quiescence although Close() returned (C02's business)"
+		}
+		// now let the far handler go: the far end finishes its own (passive) shutdown
+		ps.free()
+		parkCtl.Store((*parkState)(nil))
+		w.mark(o, "the far end of its connection called Close() / its connection ended")
 	case "frame-vs-close":
 		l := newLink()
 		if l == nil {
